@@ -2053,14 +2053,14 @@ def inline_math_comprehensions(source: str) -> str:
     replacements = {}
     blacklist = set()
 
+    # Not augmented assignments: after 'y += [...]' y is more than the value of the right hand side
     assign_template = ast.Assign(targets=[core.Wildcard("target", ast.Name)])
-    augassign_template = ast.AugAssign(target=core.Wildcard("target", ast.Name))
     annassign_template = ast.AnnAssign(target=core.Wildcard("target", ast.Name))
 
     comprehension_assignments = [
         (assignment, target, assignment.value)
         for (assignment, target) in core.walk_wildcard(
-            root, (assign_template, augassign_template, annassign_template)
+            root, (assign_template, annassign_template)
         )
         if isinstance(assignment.value, (ast.GeneratorExp, ast.ListComp, ast.SetComp))
         or (
@@ -2089,7 +2089,8 @@ def inline_math_comprehensions(source: str) -> str:
 
             # Check for references to any of the iterator's dependencies between set and use.
             # Perhaps some of these could be skipped, but I'm not sure that's a good idea.
-            value_dependencies = tuple({node.id for node in core.walk(value, ast.Name)})
+            # The variable itself must not be assigned again in between either.
+            value_dependencies = tuple({node.id for node in core.walk(value, ast.Name)} | {target.id})
             for node in core.walk(scope, ast.Name(id=value_dependencies)):
                 start, end = core.get_charnos(node, source)
                 if set_end_charno < start <= end < use_start_charno:
